@@ -271,6 +271,50 @@ def rescan_after_edit(sel: List[int]) -> bool:
         return _scan_matches(n, descs, mode)
 
 
+# ----------------------------------------------------------------------------- (c) reactions read from different formats
+import os as _os  # noqa: E402
+import sys as _sys  # noqa: E402
+
+_sys.path.insert(0, _os.path.dirname(_os.path.dirname(_os.path.dirname(_os.path.dirname(_os.path.abspath(__file__))))))
+from vf import encoders as _enc  # noqa: E402
+
+with prelude.NoTracing():
+    from naunet.network import _reaction_factory, supported_reaction_class
+
+    def _mk(fmt, r, p, lo, hi, code, idx):
+        cls = supported_reaction_class[fmt]
+        cls.initialize()
+        if fmt == "krome":
+            cls.preprocessing(_enc.KROME_HEADER)
+        line = _enc.ENC[fmt]({"reactants": list(r), "products": list(p), "a": "1.0e-10", "b": "0.0", "c": "0.0", "tmin": lo, "tmax": hi, "idx": idx, "code": code, "rate": "1.0d-10"})
+        return _reaction_factory(line + "\n", fmt)
+
+    # (format, reactants, products, window, format code, type the code denotes)
+    MIXED_DESC = [
+        ("kida", ("H", "CO"), ("HCO",), "10", "300", 3, 100), ("umist", ("CO", "H"), ("HCO",), "10", "300", "NN", 100), ("krome", ("H", "CO"), ("HCO",), "10", "300", None, 999),
+        ("naunet", ("H", "CO"), ("HCO",), "10.00", "300.00", 100, 100), ("kida", ("H", "CO"), ("HCO",), "10", "800", 3, 100), ("umist", ("H", "H2"), ("H", "H", "H"), "10", "300", "NN", 100),
+        ("kida", ("H2", "H"), ("H", "H", "H"), "10", "300", 3, 100), ("umist", ("H", "CRP"), ("H+", "e-"), "10", "300", "CP", 101),
+    ]
+    MIXED = [_mk(f, r, p, lo, hi, code, 301 + k) for k, (f, r, p, lo, hi, code, t) in enumerate(MIXED_DESC)]
+    MIXED_POOLDESC = [(tuple(x for x in r if x != "CRP"), p, float(lo), float(hi), t) for f, r, p, lo, hi, code, t in MIXED_DESC]
+
+
+def mixed_formats_default(sel: List[int]) -> bool:
+    """
+    pre: len(sel) <= 3
+    pre: all(0 <= x < 8 for x in sel)
+    post: _ == True
+    """
+    # reactions of one network read from different databases (sibling reaction classes): a repeat is a repeat whatever
+    # format each occurrence came from (default mode; a KROME reaction carries no type and matches any)
+    sel = prelude.concrete(sel)
+    with prelude.NoTracing():
+        n = Network()
+        n.reaction_list = [MIXED[i] for i in sel]
+        descs = [MIXED_POOLDESC[i] for i in sel]
+        return _scan_matches(n, descs, None) and _scan_matches(n, descs, "brief")
+
+
 def eq_laws(i: int, j: int) -> bool:
     """
     pre: 0 <= i < 17 and 0 <= j < 17
